@@ -134,3 +134,30 @@ def _trap_nonzero_start(params, inputs, observed):
     """trapezoid-based cumulative measure (Arias, CAV) and a record whose first sample is not zero: the prepended
     zero creates a new non-empty trapezoid panel, so the cumulative curve is not a pure shift."""
     return params.get('kind') in ('arias', 'cav') and params.get('k', 0) > 0 and float(inputs['a[0]']) != 0.0
+
+
+@predicate('c01_closed_form_cancellation_at_small_w_dt')
+def _c01_cancel(params, inputs, observed):
+    """w*dt <= 1.3e-3 (T/dt >= 5000) and the displacement error stays within 4x the property tolerance relative to
+    sum_k peak_k*|a_k|: the class of rounding amplified by cancellation in the Nigam-Jennings closed forms
+    (b_11, b_12 lose ~(w*dt)^-3 * eps relative accuracy), not a wrong formula (those give errors >= 1e-3)."""
+    import math
+    from fractions import Fraction
+    from vf.oracles import sdof_ref
+    from vf.props import c01
+    if params.get('ratio', 0) < 5000 or 'u' not in observed:
+        return False
+    n = params['n']
+    dt = params['dt']
+    T = params['ratio'] * dt
+    xi = params['xi']
+    a = [float(inputs['a[%d]' % i]) for i in range(n)]
+    gu, gv, w = sdof_ref.impulse_table(T, xi, dt, n)
+    tol = c01._tol(T, dt, n)
+    wf = float(w)
+    fu = 1e-2 * min(1.0 / wf ** 2, (n * dt) ** 2 / 2)
+    pu = [max(max(abs(float(gu[i][k])) for i in range(n)), fu) for k in range(n)]
+    scale = sum(p * abs(x) for p, x in zip(pu, a))
+    u = observed['u']
+    err = max(abs(u[i] - float(sum(gu[i][k] * Fraction(a[k]) for k in range(n)))) for i in range(n))
+    return err <= 4 * tol * scale
